@@ -175,7 +175,9 @@ def check_decimal(ctx: Ctx, what: str, text, v: Decimal, places, thousands, styl
     if places is None:
         ok = mag == abs(_round_sig(v, 15))
     else:
-        ok = abs(mag - abs(v)) * 2 <= unit
+        # a value with more than 15 significant digits is displayed through its 15-significant-digit rounding (the precision
+        # of a Numbers cell: the library - like Numbers - never shows a 16th digit); both readings are accepted for it
+        ok = abs(mag - abs(v)) * 2 <= unit or abs(mag - abs(_round_sig(v, 15))) * 2 <= unit
     if not ok:
         ctx.violation(f"{what}-magnitude", f"{inp} displays {text!r}, value {v}", inp)
         return
@@ -313,6 +315,11 @@ def special_values() -> list:
         vals += [float(t), float(t + Decimal(1).scaleb(k - 14)), float(t - Decimal(1).scaleb(k - 15))]
     vals += [-0.001, -1e-7, -4e-11, 0.001, 1e-7, 1.234e-6, 5e-5, -0.004, -0.005, -0.0049, 0.07, 0.1 + 0.2, 1 / 3, -1 / 3, 2 / 3,
              123456.789, 12345.012346, 0.5, -0.5, -2.5, 2.99, -0.99, 2.9999, 0.05, 0.01, -0.01, 1e-12, 123456789012.345]
+    # non-integers with more than 15 significant digits whose integer part alone has 13..15 digits (held by a cell
+    # unrounded: automatic places then round to 15 significant digits, which leaves no fraction digit at all, or only zeros)
+    vals += [123456789012349.6, 123456789012340.4, 99999999999999.95, 999999999999999.9, 777777777777699.75, 12345678901234.96,
+             12345678901234.06, 1234567890123.496, 1234567890123.004, 9999999999999.996, 100000000000000.5, 500000000000000.1,
+             120000000000000.3, 10000000000000.02]
     out = []
     seen = set()
     for v in vals + [-v for v in vals]:
